@@ -13,51 +13,75 @@ from props import balls_common as bc
 
 ID = "C04"
 READY = True
-RULE = ("simulated machines: trough (2-5 ball switches) -> plunger / staging device (1-2) -> playfield, optional lock "
-        "(1-2, switch-counted or entrance-switch-counted) that captures from the playfield and ejects to the playfield or "
-        "into the plunger (second source of the same target), optionally one ball MPF has never seen; scripts of 2-16 "
-        "actions (add_ball, request, drain, lock shot, lock release / eject_all, collect, playfield switch hit, a ball "
-        "dropping into the trough and bouncing out again, one or two balls leaking out of the idle lock) at generated "
-        "distances (0 ms .. 15 s); per coil pulse a generated physical outcome (leaves after 20-120 ms and arrives after "
-        "150 ms .. beyond eject and ball-missing timeouts, stays stuck, falls back, two balls kicked out by one pulse); "
-        "36 % of the cases come from six scenario templates with randomised numbers (two sources racing for a one-slot "
-        "target, entrance-counted lock filled beyond capacity, switch flicker at the source while its ball is late, "
-        "two balls lost from an idle device inside one count window, double kick-out with two ejects queued, source "
-        "getting ready while a two-ball target is mid-eject); non-trivial = at least one eject and one rest point "
-        "reached after it; distinct by case hash")
+RULE = ("ledger suite: simulated machines [outhole (confirm by switch/event) ->] trough (2-5 ball switches) -> plunger / "
+        "staging device (1-2) -> playfield, optional lock (1-2, switch-counted or entrance-switch-counted) that captures "
+        "from the playfield and ejects to the playfield or into the plunger (second source of the same target); eject "
+        "confirmation by target count, confirm switch or confirm event per source; pulse-coil or enable-coil ejectors; "
+        "optionally one ball MPF has never seen; scripts of 2-16 actions (add_ball, request at plunger / at the trough "
+        "(never servable), drain, lock shot, ball rolling back into the plunger lane, lock release / eject_all, collect, "
+        "playfield switch hit, ball dropping in and bouncing out again, balls leaking out of the idle lock) at generated "
+        "distances (0 ms .. 15 s); environment handlers that hold the queue event balldevice_X_ball_eject_attempt for "
+        "0.7-6 s; per coil pulse a generated physical outcome (leaves after 20-120 ms, arrives after 150 ms .. 1.5 x "
+        "ball_missing_timeout, stays stuck, falls back, two balls kicked out by one pulse); 36 % of the cases come from "
+        "nine scenario templates with randomised numbers (two sources racing for a one-slot target, entrance-counted "
+        "lock filled beyond capacity, switch flicker at the source while its ball is late, two balls lost from an idle "
+        "device inside one count window, double kick-out, source ready while a two-ball target is mid-eject, eject "
+        "attempt held while the target's last slot is taken, two queued requests of which the first can never be served, "
+        "externally confirmed ball later than ball_missing_timeout while its target is mid-eject); 6 % real games "
+        "(ball_save with eject_delay + multiball as request sources); non-trivial = at least one eject and one rest point "
+        "after it.  counter suite: one switch-counted device (1-4 ball switches, optional jam switch, entrance/exit "
+        "count delays 250-1000 ms, entrance events) and one entrance-counted device (capacity 1-3, ignore window) on "
+        "switch timelines of 4-20 events on a 125 ms grid (bounces, several switches inside one count window, bursts); "
+        "non-trivial = the count changes; distinct by case hash")
 TRUSTED_BASE = [
     "Coq 8.16.1 kernel (coqc), vm_compute to replay recorded runs in the model; no native_compute",
     "axioms: none (every Print Assumptions is 'Closed under the global context')",
     "hand-written ledger model coq/C04/Model.v; tie = trace acceptance: harness/props/balls_common.py records "
     "the run of the real code (class-level __setattr__ wrappers for the seven counters, wrappers of "
-    "EventManager.post*, the virtual platform driver's pulse) and parse_log groups adjacent raw items into labels",
+    "EventManager.post*, of IncomingBall.add_external_confirm_*/_external_confirm and of "
+    "BallDevice.lost_incoming_ball, the virtual platform driver's pulse/enable) and parse_log groups adjacent raw "
+    "items into labels",
+    "hand-written counter model coq/C04/Counter.v (SwitchCounter._run/_count_switches_sync/is_jammed, "
+    "EntranceSwitchCounter._entrance_switch_handler); tie = pointwise: same switch timeline to the real counters of "
+    "a real machine and to the model, _last_count / is_count_unreliable / recorded activities compared after every "
+    "event",
     "the physical-world simulator of balls_common.py (balls as tokens, switches as seats) is the ground truth of "
-    "the oracle",
+    "the ledger oracle; the counter oracle uses the switch timeline itself",
 ]
 ASSUMPTIONS = [
-    "topologies: one playfield; switch-counted and entrance-switch-counted devices; pulse-coil ejectors; "
-    "confirm_eject_type target. Not generated: mechanical/player-controlled ejects (ball skipping), jam switches, "
-    "ball search, several playfields, entrance_switch_full_timeout; an entrance-counted device never gets a stuck or "
-    "falling-back ball (it cannot notice either, its count would be wrong by design)",
-    "the debounce / settle layer (switch_counter._run, entrance_count_delay, exit_count_delay) is validated by the "
-    "oracle on sampled runs, not proved: the ledger takes the counter's results (LCount) as input",
+    "topologies: one playfield; switch-counted and entrance-switch-counted devices; pulse-coil and enable-coil "
+    "ejectors; confirm_eject_type target / switch / event. Not generated: mechanical / player-controlled ejects (ball "
+    "skipping), hold-coil ejectors, ball search, several playfields, entrance_switch_full_timeout; an "
+    "entrance-counted device never gets a stuck or falling-back ball (it cannot notice either); jam switches only in "
+    "the counter suite (idle device), not in the simulated machines",
+    "the counter model covers a device that is not ejecting (no wait_for_ball_to_leave / _ball_left); that the "
+    "ledger's LCount inputs are the counter's reports is validated on every simulated run by the oracle (counts = "
+    "simulator truth at rest), the composition theorem conservation_with_counters states it as a hypothesis",
 ]
 DESIGN_REF = "DESIGN.md section 3, C04"
-TECHNIQUE = ("Coq proof over a hand-written ledger transition system + trace acceptance of recorded runs of the real "
-             "code (vm_compute) + direct physical-truth oracle")
-LEVEL_TEXT = ("Machine-checked proof (Coq) about the ball ledger, for all traces the ledger accepts: the step invariants "
-              "sum(counted) + playfield.balls = num_balls_known + pending and sum(available) = num_balls_known - "
-              "pending, hence at every rest point (books closed) all counts sum to num_balls_known and, when the "
-              "counters agree with the physical device contents, playfield.balls equals the balls physically loose; "
-              "0 <= balls <= capacity for every device at every observable point; a coil is pulsed only in state "
-              "'ejecting' and only while capacity - counted exceeds the expected incoming balls of the target.  "
-              "That the real coroutines emit only traces the ledger accepts, and that the switch counters turn "
-              "physical activity into the right counts, is validated on every run (sampled), not proved.")
-LEVEL_NOTE = ("Proved: bookkeeping layer, all traces. Validated by sampled runs only: the tie (real runs are accepted and "
-              "every snapshot is reproduced) and the debounce layer (oracle: counts = simulator truth at rest). "
-              "playfield.balls >= 0 is refuted in the model (pf_balls_nonneg_refuted) and reproduced on the code "
-              "(known finding); 'no pulse towards a full device' holds for MPF's believed numbers only (known "
-              "finding for late balls).")
+TECHNIQUE = ("Coq proof over a hand-written ledger transition system and a hand-written counter state machine + trace "
+             "acceptance of recorded runs of the real code (vm_compute) + pointwise differential test of the real "
+             "switch counters + direct physical-truth oracle")
+LEVEL_TEXT = ("Machine-checked proof (Coq). Ledger, for all traces it accepts: the step invariants sum(counted) + "
+              "playfield.balls = num_balls_known + pending and sum(available) = num_balls_known - pending, hence at "
+              "every rest point (books closed) all counts sum to num_balls_known and, when the counters agree with the "
+              "physical device contents, playfield.balls equals the balls physically loose; 0 <= balls <= capacity for "
+              "every device at every observable point; a coil is pulsed only in state 'ejecting' and only while "
+              "capacity - counted exceeds the expected incoming balls of the target; an arriving ball is matched only "
+              "with an expected ball that has passed its confirm switch/event, and a ball is booked as lost only "
+              "while it is still expected (never both).  Counting layer, for all switch timelines of an idle device: "
+              "0 <= count <= number of switches (entrance counter: <= ball_capacity); a switch state stable for the "
+              "count delays is reported exactly (only-jam-switch case flagged unreliable); no count change without a "
+              "switch change.  Composition: with counts taken from settled counters the playfield clause holds "
+              "without assuming counted = physical.  That the real coroutines emit only traces the ledger accepts is "
+              "validated on every run (sampled), not proved; the counter model is tied pointwise to the real classes.")
+LEVEL_NOTE = ("Proved: bookkeeping layer (all traces) and counting layer of an idle device (all switch timelines). "
+              "Validated by sampled runs only: the ledger tie (real runs are accepted and every snapshot is "
+              "reproduced), the counter during an eject, and that the ledger's LCount inputs are the counter's "
+              "reports. playfield.balls >= 0 is refuted in the model (pf_balls_nonneg_refuted) and reproduced on the "
+              "code (known finding); 'no pulse towards a full device' holds for MPF's believed numbers only (known "
+              "findings for late balls / two sources). The oracle clause 'a queued request is served once a ball is "
+              "available' is a supplement borrowed from C05 (oracle only).")
 
 ST = {s: i for i, s in enumerate(bc.STATES)}
 
@@ -116,6 +140,14 @@ def label_term(l, devs):
         return "LBroken %s" % dz(l[1])
     if k == "Pulse":
         return "LPulse %s" % dz(l[1])
+    if k == "ExtWait":
+        return "LExtWait %s" % dz(l[1])
+    if k == "Confirmed":
+        return "LConfirmed %s %s" % (dz(l[1]), dz(l[2]))
+    if k == "IncTimeout":
+        return "LIncTimeout %s %s" % (dz(l[1]), dz(l[2]))
+    if k == "IncLost":
+        return "LIncLost %s %s" % (dz(l[1]), dz(l[2]))
     if k == "S":
         kind = l[1]
         if kind == "leave":
@@ -177,6 +209,9 @@ def run_impl(case):
 
 
 def gen(rng, tier, i):
+    if rng.random() < 0.06:
+        # a real game: ball start, ball_save (eject_delay) and multiball as the sources of the ball requests
+        return bc.gen_case(rng, tier, i, profile="save_twice")
     return bc.gen_case(rng, tier, i)
 
 
@@ -196,7 +231,271 @@ def describe(case):
 
 HDR = "From C04 Require Import Model.\nDefinition run := c04_run.\nDefinition out_eqb := c04_out_eqb.\n"
 
+
+# ------------------------------------------------------------------------------------------------
+# counting layer: the real SwitchCounter / EntranceSwitchCounter of an idle device on generated switch timelines
+# (bounces, several switches inside one count window, jam switch, entrance events) against coq/C04/Counter.v
+GRID = 125      # ms; every instant is a multiple of 1/8 s after an integer second: float arithmetic is exact
+
+
+def gen_counter(rng, tier, i):
+    n = rng.choice([1, 2, 3, 4])
+    jam = rng.random() < 0.4
+    cfg = {"n": n, "jam": jam, "ent": rng.choice([250, 500, 500, 750]), "exit": rng.choice([250, 500, 500, 1000]),
+           "ecap": rng.choice([1, 2, 3]), "ignore": rng.choice([0, 0, 250, 1000])}
+    nsw = n + (1 if jam else 0)
+    ev = []
+    t = 0
+    state = [0] * nsw
+    style = rng.choice(["bounce", "slow", "burst", "mixed"])
+    for _ in range(rng.choice([4, 8, 12, 20])):
+        if style == "slow":
+            t += GRID * rng.choice([2, 4, 6, 8, 12, 50])
+        elif style == "bounce":
+            t += GRID * rng.choice([0, 1, 1, 2, 3, 4, 9])
+        elif style == "burst":
+            t += GRID * rng.choice([0, 0, 0, 1, 2, 16])
+        else:
+            t += GRID * rng.choice([0, 1, 2, 4, 5, 8, 9, 44])
+        r = rng.random()
+        if r < 0.68:
+            k = rng.randrange(nsw)
+            if jam and rng.random() < 0.25:
+                k = n
+            state[k] ^= 1
+            ev.append([t, "sw", k, state[k]])
+        elif r < 0.78:
+            ev.append([t, "ent"])
+        else:
+            ev.append([t, "tick"])
+    ev.append([t + GRID * rng.choice([1, 3, 5, 9, 20]), "tick"])
+    ev.append([ev[-1][0] + GRID * 10, "tick"])
+    eev = []
+    t = 0
+    for _ in range(rng.choice([2, 4, 6, 9])):
+        t += GRID * rng.choice([1, 1, 2, 3, 8, 20])
+        eev.append([t, "hit" if rng.random() < 0.8 else "event"])
+    return {"cfg": cfg, "ev": ev, "eev": eev}
+
+
+def run_counter(case):
+    import rig as rigmod
+    from mpf.devices.ball_device.physical_ball_counter import BallLostActivity, BallEntranceActivity, \
+        UnknownBallActivity, BallReturnActivity
+    c = case["cfg"]
+    sw = {"s_b%d" % k: {"number": str(10 + k)} for k in range(c["n"])}
+    names = ["s_b%d" % k for k in range(c["n"])]
+    box = {"ball_switches": ", ".join(names), "eject_coil": "c_box", "tags": "trough",
+           "entrance_count_delay": "%dms" % c["ent"], "exit_count_delay": "%dms" % c["exit"],
+           "entrance_events": "verif_box_entrance", "eject_timeouts": "10s"}
+    if c["jam"]:
+        sw["s_jam"] = {"number": "30"}
+        box["jam_switch"] = "s_jam"
+        names.append("s_jam")
+    sw["s_e"] = {"number": "40"}
+    ebox = {"entrance_switch": "s_e", "ball_capacity": c["ecap"], "eject_coil": "c_ebox", "tags": "trough",
+            "entrance_switch_ignore_window_ms": c["ignore"], "entrance_events": "verif_ebox_entrance"}
+    cfg = {"switches": sw, "coils": {"c_box": {"number": "1"}, "c_ebox": {"number": "2"}},
+           "ball_devices": {"box": box, "ebox": ebox},
+           "playfields": {"playfield": {"default_source_device": "box", "tags": "default"}}}
+    rig = rigmod.Rig(cfg)
+    rig.start()
+    try:
+        m = rig.machine
+        rig.advance(3.0)
+        now = rig.now()
+        base = float(int(now) + 2)
+        rig.advance(base - now)
+        if rig.now() != base:
+            return {"error": "clock not on the grid: %r" % rig.now()}
+        cb = m.ball_devices["box"].ball_count_handler.counter
+        ce = m.ball_devices["ebox"].ball_count_handler.counter
+        qb, qe = cb.register_change_stream(), ce.register_change_stream()
+        acts = {"lost": 0, "unk": 0, "ent": 0, "ret": 0}
+        eacts = [0]
+
+        def drain():
+            while not qb.empty():
+                a = qb.get_nowait()
+                key = "lost" if isinstance(a, BallLostActivity) else "ent" if isinstance(a, BallEntranceActivity) else \
+                    "ret" if isinstance(a, BallReturnActivity) else "unk" if isinstance(a, UnknownBallActivity) else None
+                acts[key] += 1
+            while not qe.empty():
+                a = qe.get_nowait()
+                eacts[0] += 1 if isinstance(a, BallEntranceActivity) else 1000
+
+        merged = sorted([(e[0], 0, j, e) for j, e in enumerate(case["ev"])] +
+                        [(e[0], 1, j, e) for j, e in enumerate(case["eev"])])
+        tb, te = [], []
+        for t, which, _, e in merged:
+            target = base + t / 1000.0
+            if target > rig.now():
+                rig.advance(target - rig.now())
+            if rig.now() != target:
+                return {"error": "clock drift: %r != %r" % (rig.now(), target)}
+            if which == 0:
+                if e[1] == "sw":
+                    m.switch_controller.process_switch(names[e[2]], state=e[3], logical=True)
+                elif e[1] == "ent":
+                    m.events.post("verif_box_entrance")
+                rig.advance(0)
+                drain()
+                tb.append([cb._last_count, 1 if cb.is_count_unreliable() else 0, acts["lost"], acts["unk"],
+                           acts["ent"], acts["ret"]])
+            else:
+                if e[1] == "hit":
+                    m.switch_controller.process_switch("s_e", state=1, logical=True)
+                    m.switch_controller.process_switch("s_e", state=0, logical=True)
+                else:
+                    m.events.post("verif_ebox_entrance")
+                rig.advance(0)
+                drain()
+                te.append([ce._last_count, eacts[0]])
+        # let everything settle, then look at what the device itself believes
+        rig.advance(8.0)
+        drain()
+        final = {"box": [cb._last_count, m.ball_devices["box"].counted_balls, m.ball_devices["box"].balls],
+                 "ebox": [ce._last_count, m.ball_devices["ebox"].counted_balls, m.ball_devices["ebox"].balls],
+                 "unrel": 1 if cb.is_count_unreliable() else 0}
+        return {"tb": tb, "te": te, "final": final, "error": None}
+    finally:
+        try:
+            rig._exception = None
+        except Exception:
+            pass
+        rig.stop()
+
+
+def coq_counter(case, out):
+    if out.get("error"):
+        return None
+    c = case["cfg"]
+    cev = []
+    for e in case["ev"]:
+        if e[1] == "sw":
+            cev.append("CSw %s %s %s" % (zlit(e[0]), zlit(e[2]), "true" if e[3] else "false"))
+        elif e[1] == "ent":
+            cev.append("CEnt %s" % zlit(e[0]))
+        else:
+            cev.append("CTick %s" % zlit(e[0]))
+    eev = ["%s %s" % ("EHit" if e[1] == "hit" else "EEvent", zlit(e[0])) for e in case["eev"]]
+    inp = "((mkc %s %s %s %s 5000, %s), (mke %s %s, %s))" % (
+        zlit(c["n"]), "true" if c["jam"] else "false", zlit(c["ent"]), zlit(c["exit"]), coqlist(cev),
+        zlit(c["ecap"]), zlit(c["ignore"]), coqlist(eev))
+    exp = "(%s, %s)" % (coqlist(zl(r) for r in out["tb"]), coqlist(zl(r) for r in out["te"]))
+    return "(%s, %s)" % (inp, exp)
+
+
+def oracle_counter(case, out):
+    """the property's own clauses for the counting layer, from the switch timeline alone (no model):
+    a count never exceeds the number of switches / ball_capacity, never is negative, and once every switch has been
+    quiet for longer than both delays the count equals the number of active ball switches"""
+    if out.get("error"):
+        return [{"sig": "counter-harness", "what": out["error"]}]
+    c = case["cfg"]
+    fails = []
+    nsw = c["n"] + (1 if c["jam"] else 0)
+    for r in out["tb"]:
+        if r[0] < 0 or r[0] > nsw:
+            fails.append({"sig": "switch-count-out-of-range", "what": "SwitchCounter reports %d balls with %d switches" %
+                          (r[0], nsw)})
+            break
+    for r in out["te"]:
+        if r[0] < 0 or r[0] > c["ecap"]:
+            fails.append({"sig": "entrance-count-above-capacity", "what": "EntranceSwitchCounter reports %d balls, "
+                          "ball_capacity %d" % (r[0], c["ecap"])})
+            break
+    # physical state at the end (8 s after the last event: far beyond every delay)
+    state = [0] * nsw
+    for e in case["ev"]:
+        if e[1] == "sw":
+            state[e[2]] = e[3]
+    fin = out["final"]
+    only_jam = c["jam"] and state[c["n"]] and sum(state) == 1
+    if not only_jam and not fin["unrel"]:
+        if fin["box"][0] != sum(state):
+            fails.append({"sig": "stable-count-wrong", "what": "switches %r quiet for 8 s but the counter reports %d" %
+                          (state, fin["box"][0])})
+        elif fin["box"][1] != sum(state):
+            if c["jam"] and any(r[1] for r in out["tb"]):
+                # known: a ball whose first debounced appearance is followed by the only-jam-switch state before
+                # BallCountHandler._run got to handle it is skipped ("count unreliable"); when the jam clears with an
+                # unchanged count the SwitchCounter records no activity, so the handler never looks again
+                fails.append({"sig": "device-count-stale-after-jam", "what": "switches %r quiet for 8 s, the counter "
+                              "reports %d but the device still counts %d (count was unreliable in between: only the "
+                              "jam switch active)" % (state, fin["box"][0], fin["box"][1])})
+            else:
+                fails.append({"sig": "device-count-differs-from-counter", "what": "switches %r quiet for 8 s, counter "
+                              "%d, device %d" % (state, fin["box"][0], fin["box"][1])})
+    # without a switch change the count does not change: two consecutive samples that both lie beyond both delays
+    # after the last switch change must agree
+    prev, prev_settled = None, False
+    last_change_t = -10 ** 9
+    for e, r in zip(case["ev"], out["tb"]):
+        if e[1] == "sw":
+            last_change_t = e[0]
+        settled = e[0] - last_change_t >= max(c["ent"], c["exit"])
+        if e[1] != "sw" and prev is not None and prev_settled and prev[0] != r[0]:
+            fails.append({"sig": "count-changed-without-switch-change", "what": "count %d -> %d at t=%d ms, last switch "
+                          "change at %d ms" % (prev[0], r[0], e[0], last_change_t)})
+            break
+        prev, prev_settled = r, settled
+    # debounce, from the timeline alone: the reported count is the number of active switches at the latest instant
+    # (125 ms grid) at which every switch had been unchanged for its delay (jam-free devices)
+    if not c["jam"]:
+        hist = [[(-10 ** 7, 0)] for _ in range(nsw)]         # per switch: (time, state) changes
+        k = 0
+        for e, r in zip(case["ev"], out["tb"]):
+            if e[1] == "sw":
+                hist[e[2]].append((e[0], e[3]))
+            t = e[0]
+            exp = None
+            tau = t - t % GRID
+            while tau >= -GRID and exp is None:
+                n_act, ok = 0, True
+                for h in hist:
+                    # state at tau: timers due at tau run before a change made at tau (strict <)
+                    past = [x for x in h if x[0] < tau]
+                    since, st = past[-1]
+                    if tau - since < (c["ent"] if st else c["exit"]):
+                        ok = False
+                        break
+                    n_act += st
+                if ok:
+                    exp = n_act
+                tau -= GRID
+            if exp is None:
+                exp = 0
+            if r[0] != exp:
+                fails.append({"sig": "count-not-debounced", "what": "at t=%d ms the counter reports %d; the last switch "
+                              "state that was stable for the count delays had %d active switches" % (t, r[0], exp)})
+                break
+    hits = sum(1 for e in case["eev"])
+    if out["te"] and out["te"][-1][0] > hits:
+        fails.append({"sig": "entrance-count-above-hits", "what": "%d balls counted after %d entrance hits" %
+                      (out["te"][-1][0], hits)})
+    if fin["ebox"][1] != fin["ebox"][0]:
+        fails.append({"sig": "device-count-differs-from-counter", "what": "ebox counter %d, device %d" %
+                      (fin["ebox"][0], fin["ebox"][1])})
+    return fails
+
+
+def shrink_counter(case):
+    for key in ("ev", "eev"):
+        l = case[key]
+        for i in range(len(l)):
+            yield dict(case, **{key: l[:i] + l[i + 1:]})
+
+
+def nontrivial_counter(case, out):
+    return not out.get("error") and len({r[0] for r in out["tb"]}) >= 2
+
+
+HDR_CNT = "From C04 Require Import Counter.\nDefinition run := counter_run.\nDefinition out_eqb := counter_out_eqb.\n"
+
 SUITES = [
     Suite("ledger", gen, run_impl, HDR, coq_case, bc.oracle_c04, bc.shrink_case, nontrivial,
           {"quick": 240, "thorough": 6000}, describe=describe, shard=30, case_timeout=120),
+    Suite("counter", gen_counter, run_counter, HDR_CNT, coq_counter, oracle_counter, shrink_counter, nontrivial_counter,
+          {"quick": 120, "thorough": 3000}, shard=200, case_timeout=60),
 ]
